@@ -120,9 +120,8 @@ theorem packet_next_layer (fuel : Nat) (dec : Dec) (v : Bytes) (acc : RunOut) (s
     (d' : Dec) (hs : stepS dec v = some s) (hl : s.layer = some l) (hne : s.rest.length ≠ 0)
     (hr : resolveS s.beh.tail s.rest = some d') :
     runS (fuel + 1) dec v acc =
-      runS fuel d' s.rest { acc with acts := acc.acts ++ s.beh.acts, layers := acc.layers ++ [l] } := by
-  conv => lhs; unfold runS
-  simp only [hs, hl, hne, if_false, hr]
+      runS fuel d' s.rest { acc with acts := acc.acts ++ s.beh.acts, layers := acc.layers ++ [l] } :=
+  runS_next fuel dec v acc s l d' hs hl hne hr
 
 /-! ## Non-vacuity -/
 
